@@ -21,7 +21,14 @@ import (
 	"google.golang.org/protobuf/types/dynamicpb"
 )
 
-func init() { Register("msg", famMsg) }
+func init() {
+	Register("msg", famMsg)
+	Register("msgsize", func(c *Ctx) { msgSizeOnly = true; famMsg(c) })
+}
+
+// msgSizeOnly: family "msgsize" (C04) -- only the enc case (bytes + Size against the model) and the
+// Size / MarshalAppend predicates, no decoding; its case lines belong to model family "msg".
+var msgSizeOnly bool
 
 var msgDetOpts = proto.MarshalOptions{Deterministic: true, AllowPartial: true}
 var msgDefOpts = proto.MarshalOptions{AllowPartial: true}
@@ -290,6 +297,9 @@ func msgOneValue(c *Ctx, fl msgFlavour, id string, depth int) {
 	c.Stat("enc_" + fl.name + "_ok")
 	c.Case("msg", "enc", append([]string{id, "0", mode}, val...), []string{"ok", HexB(det), HexN(uint64(msgDetOpts.Size(m.Interface()))), "v1"})
 	msgSizeChecks(c, fl, m)
+	if msgSizeOnly {
+		return
+	}
 	msgRoundTrip(c, fl, m)
 
 	// decode: canonical bytes, other valid encodings, merges, mutations, small recursion limits
@@ -465,8 +475,10 @@ func msgDeepCorpus(c *Ctx) {
 }
 
 func famMsg(c *Ctx) {
-	msgCorpus(c)
-	msgDeepCorpus(c)
+	if !msgSizeOnly {
+		msgCorpus(c)
+		msgDeepCorpus(c)
+	}
 	types := msgAllTypes()
 	c.StatN("linked_types", len(types))
 	// budget: c.N random contents in total; every linked type gets at least one per run when
